@@ -147,6 +147,87 @@ theorem C02_refines_spec {C : Crypto} {certsOk : Bytes → Bool} {b : Bytes} (wb
     (h : p.verify C certsOk c = .ok true) : Spec.authenticodeVerify C b c = true :=
   authenticodeVerify_of_verify wb hp he hsha h
 
+/-- What `WF` assumes about the certificate table, `Parse` enforces (F22 repair): whenever `Parse`
+    succeeds on *any* byte string whose directory entry declares a table, that table starts 8-aligned
+    and ends exactly at the end of the file — so the unsigned `Size` field cannot be inflated to
+    swallow bytes in front of the table while the zero padding stands in for them, and the table
+    `Verify` walks is literally the tail of the file.  No well-formedness hypothesis. -/
+theorem C02_table_is_tail {img : Bytes} {f : PeFacts} {p : Parsed} (hp : parse img f = .ok p)
+    (hs : f.ddSize ≠ 0) :
+    f.ddVA % 8 = 0 ∧ f.ddVA + f.ddSize = img.length ∧
+      p.certTable = slice img f.ddVA (f.ddVA + f.ddSize) := by
+  unfold parse at hp
+  split at hp
+  · simp at hp
+  · simp only at hp
+    split at hp
+    · simp at hp
+    · split at hp
+      · simp at hp
+      · split at hp
+        · simp at hp
+        · rename_i hn
+          simp only [Outcome.ok.injEq] at hp
+          subst hp
+          refine ⟨?_, ?_, rfl⟩ <;> omega
+
+/-- The strict reading of the certificate table implies the tolerant one that the correspondence
+    oracle judges "success ⇒ specification" by: on a table that walks strictly both see the same
+    entries, so `Spec.authenticodeVerify` and `Spec.authenticodeVerifyLenient` agree there. -/
+theorem walkPrefix_of_walkTable : ∀ (fuel : Nat) (t : Bytes) (es : List CertEntry),
+    walkTable fuel t = some es → Spec.PE.walkPrefix fuel t = es := by
+  intro fuel
+  induction fuel with
+  | zero =>
+    intro t es h
+    unfold walkTable at h
+    split at h
+    · cases h; rfl
+    · cases h
+  | succ fuel ih =>
+    intro t es h
+    unfold walkTable at h
+    unfold Spec.PE.walkPrefix
+    split at h
+    · rename_i he
+      cases h
+      have : t.length < 8 := by
+        have : t = [] := by simpa using he
+        subst this; simp
+      rw [if_pos this]
+    · split at h
+      · cases h
+      · rename_i hl
+        simp only at h
+        split at h
+        · cases h
+        · rename_i hfit
+          rw [if_neg hl]
+          simp only
+          rw [if_neg (by omega)]
+          split at h
+          · cases h
+          · rename_i es' hrec
+            cases h
+            rw [ih _ _ hrec]
+
+theorem C02_strict_implies_lenient {C : Crypto} {b : Bytes} {c : Cert} {es : List CertEntry}
+    (he : certEntries b = some es) :
+    Spec.authenticodeVerifyLenient C b c = Spec.authenticodeVerify C b c := by
+  unfold Spec.authenticodeVerifyLenient Spec.authenticodeVerify
+  rw [he]
+  unfold certEntries at he
+  unfold Spec.PE.certEntriesLenient
+  simp only at he ⊢
+  split at he
+  · cases he; rename_i h0; rw [if_pos h0]
+  · rename_i h0
+    rw [if_neg h0]
+    split at he
+    · cases he
+    · rename_i h1
+      rw [if_neg h1, walkPrefix_of_walkTable _ _ _ he]
+
 /-! ### non-vacuity: a really signed image under toy cryptography (`PeSignEx` in Lemmas/PeSign.lean:
     the digest sees the last 32 bytes of the message; a signature is valid iff it is the key's
     modulus byte followed by the signed bytes) -/
@@ -216,3 +297,5 @@ end NonVacuity
 #print axioms C02_refines_spec
 
 end GoUefi.C02
+#print axioms GoUefi.C02.C02_table_is_tail
+#print axioms GoUefi.C02.C02_strict_implies_lenient
